@@ -235,4 +235,47 @@ def unqualified : RefKind → Nat → Bool × Bool
   | .useSchema, parts => (parts < 2, false)
   | .table, parts => (parts < 3, parts < 2)
 
+/-- the `exp.Table` node sqlglot builds for the name in CREATE/DROP SCHEMA: which of its args are present.  Normally the schema
+    name sits in `db` and the database in `catalog`; `DROP SCHEMA IF EXISTS [db.]s` is parsed like a table reference: name in
+    `this`, database in `db`. -/
+structure SchemaNode where
+  this : Bool
+  db : Bool
+  catalog : Bool
+deriving DecidableEq, Repr
+
+def schemaNode (tableLike : Bool) (parts : Nat) : SchemaNode :=
+  if tableLike then ⟨true, decide (2 ≤ parts), false⟩ else ⟨false, true, decide (2 ≤ parts)⟩
+
+/-- `checks.py`: `no_database = not node.args.get("db" if node.args.get("this") else "catalog")` — decided from the node's SHAPE -/
+def schemaNoDatabase (n : SchemaNode) : Bool := !(if n.this then n.db else n.catalog)
+
+/-- the same decided from the statement's `exists` flag instead (what it must not do: CREATE SCHEMA IF NOT EXISTS has the flag
+    but the normal shape) -/
+def schemaNoDatabaseByFlag (existsFlag : Bool) (n : SchemaNode) : Bool := !(if existsFlag then n.db else n.catalog)
+
+/-! ### uses of a connection other than a plain `cursor.execute` (conn.py, cursor.py:executemany/describe, pandas_tools.py) -/
+
+/-- `conn.commit()`, `conn.rollback()`, `conn.cursor().execute(..)`, `conn.execute_string(..)`, `cursor.executemany(..)`,
+    `cursor.describe(..)` are all runs of `cursor.execute` (the first failure propagates); `write_pandas` has its own guard and then
+    talks to DuckDB directly; `cursor.description` runs `_execute` on a throw-away cursor. -/
+inductive ConnUse (Q : Type)
+  | viaExecute (ss : List (Stmt Q))
+  | writePandas
+  | description (c : Call Q)
+
+/-- the first failure of a run of executes (or success), and the world afterwards -/
+def runExecutes {D Q} (eng : D → Q → Except DuckExc D) (w : World D) : List (Stmt Q) → World D × Outcome
+  | [] => (w, .ok)
+  | s :: ss =>
+    let r := execute eng w s
+    match r.outcome with
+    | .ok => runExecutes eng r.world ss
+    | o => (r.world, o)
+
+def ConnUse.run {D Q} (eng : D → Q → Except DuckExc D) (w : World D) : ConnUse Q → World D × Outcome
+  | .viaExecute ss => runExecutes eng w ss
+  | .writePandas => if w.closed then (w, .database c250002) else (w, .ok)      -- open: the insert itself is C01's subject
+  | .description c => (w, descriptionOutcome eng w c)
+
 end Fs.Err
